@@ -90,6 +90,12 @@ def fam_c18(rnd, tier):
     return [(f"c18:{i}", gen.program_c18(rnd), ["canon", "pad"]) for i in range(n)]
 
 
+@family("C17")
+def fam_c17(rnd, tier):
+    n = 500 if tier == "quick" else 15000
+    return [(f"c17:{i}", gen.program_c17(rnd), ["canon"]) for i in range(n)]
+
+
 BAD_LINES = ["let = ;", "fn (", "print(;", "class { }", "let q = 1 +;", "}", "if { }", "let 5 = 5;", "return 1;", "\"unterminated", "break;"]
 ERR_LINES = ["nil + 1;", "[1][7];", "raise Error(\"repl boom\");", "3();", "nil.zz;"]
 ERR_CLASSES = ["RuntimeError", "IndexError", "Error", "RuntimeError", "RuntimeError"]
@@ -175,7 +181,7 @@ def run(pid, tier, replay=None):
         progs = FAMILIES[pid](rnd, tier)
     cases = []
     for cid, ast, layouts in progs:
-        rec = lang.case_record(cid, ast)
+        rec = lang.multi_case_record(cid, ast["main"], ast["mods"]) if "mods" in ast and "k" not in ast else lang.case_record(cid, ast)
         rec["ast"] = ast
         rec["layouts"] = layouts
         cases.append(rec)
@@ -186,6 +192,12 @@ def run(pid, tier, replay=None):
             if lay == "repl":
                 lines = repl_lines(c["ast"], random.Random(hash(c["id"]) % 100000 + vlib.seed()))
                 vmcases.append({"id": f"{c['id']}|repl", "repl": lines, "files": {"main.lay": "\n".join(lines)}, "_case": c["id"], "_layout": lay, "_lines": {}})
+                continue
+            if "mods" in c["ast"] and "k" not in c["ast"]:
+                files = {"main.lay": render(c["ast"]["main"], lay)[0]}
+                for name, a in c["ast"]["mods"].items():
+                    files[name + ".lay"] = a if isinstance(a, str) else render(a, lay)[0]
+                vmcases.append({"id": f"{c['id']}|{lay}", "files": files, "_case": c["id"], "_layout": lay, "_lines": {}})
                 continue
             src, line_of = render(c["ast"], lay)
             vmcases.append({"id": f"{c['id']}|{lay}", "files": {"main.lay": src}, "_case": c["id"], "_layout": lay, "_lines": line_of})
@@ -226,7 +238,7 @@ def run(pid, tier, replay=None):
         if diff:
             c = bycase[vc["_case"]]
             v.violation(f"{vc['id']} [{vc['_rep']} build]: {diff}"[:500],
-                        {"id": c["id"], "layout": vc["_layout"], "ast": c["ast"], "source": vc["files"]["main.lay"], "build": vc["_rep"],
+                        {"id": c["id"], "layout": vc["_layout"], "ast": c["ast"], "source": vc["files"]["main.lay"], "files": vc["files"], "build": vc["_rep"],
                          "predicted": {"out": p["out"], "st": p["st"]},
                          "observed": {"stdout": r.get("stdout", "")[:3000], "stderr": r.get("stderr", "")[-1500:],
                                       "status": r["status"], "panic": r.get("panic", "")}})
